@@ -347,8 +347,39 @@ def run(ctx):
     for _ in range(ctx.n(140, 2500)):
         progs = [gen_comp.gen_program(ctx.rng, allow_pow=False, allow_array=False), gen_comp.gen_program(ctx.rng, allow_pow=False, allow_array=False)]
         one_case(ctx, progs)
+    same_named_classes(ctx)
+
+
+def same_named_classes(ctx):
+    """what a model reports depends on the class it was made for, not on another class of the same name (and
+    module) for which a model was made earlier in the process"""
+    import vlib
+
+    class P3:  # same name and module as vlib.P3, another constructor
+        def __init__(self, a=0.0, b=1.0):
+            self.a = a
+            self.b = b
+
+    P3.__module__, P3.__qualname__ = "vlib", "P3"
+    for first, second, names in ((vlib.P3, P3, ["a", "b"]), (P3, vlib.P3, ["a", "b", "c"])):
+        case = {"label": "same-named-classes", "second": names}
+        try:
+            af.Model(first).prior_count
+            m = af.Model(second)
+            got = (m.prior_count, sorted(".".join(map(str, p)) for p in m.paths))
+            inst = m.instance_from_prior_medians()
+            ok = got == (len(names), names) and type(inst) is second and sorted(k for k in vars(inst) if k != "id") == names
+        except Exception as e:  # noqa
+            got, ok = f"{type(e).__name__}: {str(e)[:120]}", False
+        ctx.hit("same-named-classes")
+        if not ok:
+            ctx.fail("C13-answer-depends-on-earlier-model",
+                     "a model of a class reports the parameters of another class of the same name for which a model was made before",
+                     case, {"got": str(got)[:300], "want": names})
 
 
 def replay(ctx, payload):
     case = payload.get("case") or payload.get("disagreements", [{}])[0].get("case")
+    if case.get("label") == "same-named-classes":
+        return same_named_classes(ctx)
     one_case(ctx, case["programs"], label="replay", script={"setup": case["setup"], "ops": case["ops"]})
